@@ -682,7 +682,36 @@ pub fn build_font_with(vf: &VFont, rng: &mut Rng, cff2: Option<Vec<u8>>) -> Buil
     post[10..12].copy_from_slice(&(b("unds") as i16).to_be_bytes());
     f.sets("post", post);
     let axis_names: Vec<String> = (0..vf.axes.len()).map(|i| format!("Axis{}", i)).collect();
-    let mut names: Vec<(u16, &str)> = vec![(1, "Verif"), (2, "Regular"), (4, "Verif Regular"), (6, "Verif-Regular")];
+    // family / typographic family / variations PostScript prefix: usually plain, sometimes long and
+    // not ASCII (instancing builds a PostScript name from them and has to cut it to 63 bytes)
+    let hostile_name = |rng: &mut Rng| -> String {
+        let pools: [&[char]; 5] = [
+            &['A', 'b', 'Z', '9', '0', 'q'],
+            &['\u{416}', '\u{44F}', '\u{401}', '\u{434}'],
+            &['\u{3A9}', '\u{3B1}', '\u{3C0}'],
+            &['\u{4E2D}', '\u{6587}', '\u{5B57}'],
+            &[' ', '-', '(', '%', '/', '\u{E9}', '\u{DF}', '\u{10400}'],
+        ];
+        let n = *rng.pick(&[3usize, 20, 50, 62, 63, 64, 70, 130]) + rng.below(4);
+        (0..n).map(|_| { let p = *rng.pick(&pools); *rng.pick(p) }).collect()
+    };
+    let mut owned_names: Vec<(u16, String)> = Vec::new();
+    if rng.chance(1, 3) {
+        owned_names.push((1, hostile_name(rng)));
+        if rng.bool() {
+            owned_names.push((16, hostile_name(rng)));
+        }
+        if rng.bool() {
+            owned_names.push((25, hostile_name(rng)));
+        }
+    } else {
+        owned_names.push((1, "Verif".to_string()));
+    }
+    let mut names: Vec<(u16, &str)> = vec![(2, "Regular"), (4, "Verif Regular"), (6, "Verif-Regular")];
+    for (id, s) in &owned_names {
+        names.push((*id, s.as_str()));
+    }
+    names.sort_by_key(|x| x.0);
     for (i, s) in axis_names.iter().enumerate() {
         names.push((256 + i as u16, s.as_str()));
     }
